@@ -61,6 +61,13 @@ theorem C03_incidence {s : HG} (h : Reachable s) {n e : PyId} :
   let w := (C03_reachable h).wf
   ⟨fun hn hm => w.n2e n hn e hm, fun he hm => w.e2n e he n hm, fun he => w.setE e he⟩
 
+/-- adding works: when `add_simplex` returns without a warning on a non-empty member list, a simplex with
+    exactly that node set exists afterwards (together with `C03_step`: and all its faces) -/
+theorem C03_add_simplex_adds {s : HG} (h : SCInv s) (ms : List PyId) (idx : Option PyId) (a : Attrs) (hh : Hints)
+    (hne : ms ≠ []) (hok : (addSimplex s ms idx a hh).2 = .ok) :
+    ∃ e ∈ (addSimplex s ms idx a hh).1.edges, ∀ n, n ∈ (addSimplex s ms idx a hh).1.mem e ↔ n ∈ ms :=
+  addSimplex_has h ms idx a hh hne hok
+
 /-- removing a simplex removes exactly that simplex and the simplices containing it: the call returns, the
     member sets are untouched, the remaining simplices (in their order) are those whose node set does not
     include the removed one's — and the result is again a simplicial complex -/
